@@ -71,9 +71,18 @@ def after_loop(items, check):
         except ValueError as err:
             continue
     return err
+def cell_read(c, f):
+    def inner():
+        nonlocal x
+        x = f()
+    if c:
+        inner()
+    r = x
+    x = None
+    return r
 '''
-KERNELS = ['cond_bind', 'del_read', 'use_fin', 'read_in_finally', 'del_in_finally', 'except_as', 'explicit_loop', 'after_loop']
-NARGS = dict(cond_bind=2, del_read=2, use_fin=1, read_in_finally=2, del_in_finally=1, except_as=2, explicit_loop=2, after_loop=2)
+KERNELS = ['cond_bind', 'del_read', 'use_fin', 'read_in_finally', 'del_in_finally', 'except_as', 'explicit_loop', 'after_loop', 'cell_read']
+NARGS = dict(cond_bind=2, del_read=2, use_fin=1, read_in_finally=2, del_in_finally=1, except_as=2, explicit_loop=2, after_loop=2, cell_read=2)
 
 REPLAY = r'''
 import sys
@@ -101,7 +110,7 @@ def acq(mode):
         if mode == 'value': raise ValueError()
         return 7
     return f
-if fn in ('cond_bind', 'del_read'):
+if fn in ('cond_bind', 'del_read', 'cell_read'):
     for cflag in (0, 1):
         for mode in ('ok', 'raise'):
             cmp((cflag, mode), lambda: (cflag, acq(mode)))
@@ -142,8 +151,26 @@ def replay(rep, cex):
     return 'REPLAY-REPRODUCED' in txt, txt
 
 
+def closure_stubs(ex, env, tr):
+    """closure scope objects: a new object whose cell slots start as NULL (tp_new zero-fills); the inner function object is an opaque new reference"""
+    def scope_new(ex_, g, a, rt, caller):
+        p = tr.new_object(g, 'scope')
+        r = ex_.regions[[i for i in p.regions if i][0]]
+        # every cell slot: NULL (unbound) or some live object - over-approximates whatever the inner function bound through `nonlocal` before the read
+        for k, off in enumerate(range(16, 16 + 8 * 4, 8)):
+            o = tr.arg('cell%d' % k)
+            b = z3.Bool('cell%d_is_bound' % k)
+            r.fields[off] = (8, Ptr(z3.If(b, o.bv, z3.BitVecVal(0, 64)), list(o.regions) + [0]))
+        return p
+    for f in _B.module.functions:
+        if re.match(r'^__pyx_tp_new_.*___pyx_scope_struct', f):
+            ex.stubs[f] = scope_new
+    ex.stubs['__Pyx_CyFunction_New'] = lambda ex_, g, a, rt, c: tr.new_object(g, 'CyFunction_New')
+
+
 def worker(fn):
     C35._B = _B
+    C35.EXTRA = closure_stubs
     C35.NARGS.update(NARGS)
     res = C35.check_kernel(fn)
     # C21 keeps the NULL-safety / error-protocol obligations (reference counts are C35's subject)
@@ -161,7 +188,8 @@ def run(rep, tier, only=None):
     rep.bounds += ['every combination of success / failure of every fallible call in the kernel, loops unrolled %d times (longer iterations are outside)' % C35.UNROLL,
                    'claim: a local that is unbound when read never reaches the C-API or a dereference as NULL, and NULL is returned exactly when an exception is set; '
                    'the native replay compares value / exception class with the same source run by CPython',
-                   'outside: closures and cell variables, lenient-mode compilation, class and module scope, generators, NameError for globals (C26)']
+                   'closure kernel cell_read: the scope object is a new object whose cell slots each hold NULL or an arbitrary live object (over-approximates every inner-function history); '
+                   'outside: other closure shapes (from_closure reads in inner functions), lenient-mode compilation, class and module scope, generators, NameError for globals (C26)']
     rep.assume('ownership and failure contracts of the C-API as in C35', 'UnboundLocalError is raised by __Pyx_RaiseUnboundLocalError (sets the exception)')
     with mp.Pool(min(16, os.cpu_count() or 4), initializer=_init, initargs=(_B,)) as pool:
         results = pool.map(worker, jobs, chunksize=1)
